@@ -35,6 +35,8 @@ def run_native(case, profile='dev'):
         json.dump(case, f)
     p = subprocess.run([binary, path], capture_output=True, text=True, timeout=120)
     os.unlink(path)
+    if p.returncode == 3 and 'REPLAY-SETUP-FAILED' in p.stderr:
+        return None, 'the scenario could not be set up (not a behaviour of the code under test): ' + p.stderr[-600:]
     if p.returncode != 0:
         return {'panic': p.stderr[-1500:]}, ''
     return json.loads(p.stdout.strip().splitlines()[-1]), ''
@@ -448,6 +450,103 @@ def evaluate(case, native):
             return True, (f'validator {"reports" if reported else "does not report"} {rule} for the job {json.dumps(job)} although the documented rule is '
                           f'{"broken" if broken else "not broken"} (all codes reported: {native["codes"]})')
         return False, f'{rule}: reported={reported} agrees with the documented rule'
+    if kind == 'checker':
+        import datetime
+        ts = lambda x: int(datetime.datetime.strptime(x, '%Y-%m-%dT%H:%M:%SZ').replace(tzinfo=datetime.timezone.utc).timestamp())
+        errors = native['errors']
+        has = lambda *frag: any(any(f in e for f in frag) for e in errors)
+        vehicle = case['problem']['fleet']['vehicles'][0]
+        shift = vehicle['shifts'][0]
+        tour = case['solution']['tours'][0]
+        stops = tour['stops']
+        if has('cannot find', 'unknown activity'):
+            return False, f'a context look-up failed natively (precondition of the model not met): {errors}'
+        if case['rule'] == 'shift_limits':
+            lim = vehicle.get('limits') or {}
+            acts = sum(len(s_['activities']) for s_ in stops) - (2 if 'end' in shift else 1)
+            ok = (('maxDistance' not in lim or tour['statistic']['distance'] <= lim['maxDistance']) and ('maxDuration' not in lim or tour['statistic']['duration'] <= lim['maxDuration'])
+                  and ('tourSize' not in lim or max(acts, 0) <= lim['tourSize']))
+            reported = has('max distance limit violation', 'shift time limit violation', 'tour size limit violation')
+        elif case['rule'] == 'shift_time':
+            ok = ts(stops[0]['time']['departure']) >= ts(shift['start']['earliest']) and ('end' not in shift or ts(stops[-1]['time']['arrival']) <= ts(shift['end']['latest']))
+            reported = has('tour time is outside shift time')
+        elif case['rule'] == 'recharge_limits':
+            ok = True
+            rc = shift.get('recharges')
+            if rc and len(stops) > 1:
+                acc = 0
+                for a, b in zip(stops, stops[1:]):
+                    acc += b['distance'] - a['distance']
+                    if acc > rc['maxDistance']:
+                        ok = False
+                        break
+                    if any(x['type'] == 'recharge' for x in b['activities']):
+                        acc = 0
+            reported = has('recharge distance violation')
+        elif case['rule'] == 'routing':
+            n = len(stops)
+            m = case['matrix']
+            dur = lambda i, j: m['travelTimes'][i * n + j]
+            dst = lambda i, j: m['distances'][i * n + j]
+            skip = all(s_['distance'] == 0 for s_ in stops)
+            ok = True
+            for i in range(1, n):
+                if abs(ts(stops[i - 1]['time']['departure']) + dur(i - 1, i) - ts(stops[i]['time']['arrival'])) > 1:
+                    ok = False
+                prev = stops[i - 1]['distance'] if i > 1 else 0
+                if not skip and abs(prev + dst(i - 1, i) - stops[i]['distance']) > 1:
+                    ok = False
+            last = stops[-1]['distance'] if n > 1 else 0
+            if not skip and abs(last - tour['statistic']['distance']) > 1:
+                ok = False
+            if abs(ts(stops[-1]['time']['departure']) - ts(stops[0]['time']['departure']) - tour['statistic']['duration']) > 1:
+                ok = False
+            ov = case['solution']['statistic']
+            if ov['distance'] != tour['statistic']['distance'] or ov['duration'] != tour['statistic']['duration']:
+                ok = False
+            reported = has('arrival time mismatch', 'distance mismatch', 'duration mismatch', 'solution statistic mismatch')
+        elif case['rule'] == 'load':
+            dims = case['dims']
+            jobs_by_id = {j['id']: j for j in case['problem']['plan']['jobs']}
+            cap = vehicle['capacity']
+
+            def demand(act):
+                job = jobs_by_id.get(act['jobId'])
+                if job is None:
+                    return 'none', [0] * dims
+                dynamic = bool(job.get('pickups')) and bool(job.get('deliveries'))
+                key = {'pickup': 'pickups', 'delivery': 'deliveries', 'replacement': 'replacements', 'service': 'services'}[act['type']]
+                amounts = (job[key][0].get('demand') or [0] * dims)
+                kind = {'pickup': 'dp' if dynamic else 'sp', 'delivery': 'dd' if dynamic else 'sd', 'replacement': 'spd', 'service': 'none'}[act['type']]
+                return kind, amounts
+            every = [demand(a) for s_ in stops for a in s_['activities'] if a['type'] not in ('departure', 'arrival')]
+            ok = True
+            for d in range(dims):
+                sdel = sum(a[d] for k, a in every if k in ('sd', 'spd'))
+                spick = sum(a[d] for k, a in every if k in ('sp', 'spd'))
+                if stops[0]['load'][d] != sdel:
+                    ok = False
+                for i in range(1, len(stops)):
+                    change = 0
+                    for a in stops[i]['activities']:
+                        if a['type'] == 'arrival':
+                            change -= spick
+                            continue
+                        if a['type'] == 'departure':
+                            continue
+                        k, am = demand(a)
+                        change += am[d] if k in ('sp', 'dp') else -am[d] if k in ('sd', 'dd') else 0
+                    if stops[i]['load'][d] != stops[i - 1]['load'][d] + change:
+                        ok = False
+                if any(s_['load'][d] > cap[d] for s_ in stops):
+                    ok = False
+            reported = has('load exceeds capacity', 'load mismatch')
+        else:
+            return None, f'unknown checker rule {case["rule"]}'
+        if reported == ok:
+            return True, (f'checker rule {case["rule"]}: the documented rule {"holds" if ok else "is broken"} for the documents of this case but the checker '
+                          f'{"reports" if reported else "does not report"} it (all messages: {errors})')
+        return False, f'checker rule {case["rule"]}: reported={reported} agrees with the documents (rule holds={ok})'
     if kind == 'tour_order':
         def greater(a, b):
             return (a['kind'] == 'value' and b['kind'] == 'value' and a['value'] > b['value']) or (a['kind'] == 'default' and b['kind'] == 'value')
